@@ -408,6 +408,11 @@ def run_processes(ctx, hist, r, split, use_pool, det0, pool_first=False, continu
         pool_obj = NonDaemonicPool(3)
     agg, ev, path = new_aggregator(d, continue_file=continue_file)
     sched.T.mode = "off"
+    if int(r.integers(0, 2)):
+        try:
+            agg.make_statistic()  # a statistic before any worker exists (header-only table: may raise)
+        except Exception:  # noqa: BLE001
+            pass
     feats = {"mode": "pool" if use_pool else "processes", "split_writes": split, "pool_first": pool_first, "continue_file": continue_file}
     det = dict(det0, history=hist, split_writes=split)
     results = []
@@ -469,6 +474,22 @@ def run_processes(ctx, hist, r, split, use_pool, det0, pool_first=False, continu
         if fn.startswith("ev_"):
             with open(os.path.join(evdir, fn)) as fh:
                 events += [json.loads(l) for l in fh if l.strip()]
+    # the parent (which may have built a statistic before the workers started) asks again after all of them have
+    # returned: every submitted subject must be there
+    try:
+        st = agg.make_statistic()
+        seen = set(st.subjectnames)
+    except Exception as e:  # noqa: BLE001
+        seen = None
+        if any(c[0] == "eval" for calls in hist.values() for c in calls):
+            ctx.viol("make_statistic_raised_although_rows_were_complete", dict(det, exc=repr(e)[:200], where="parent after all workers returned"), features=dict(feats, kind="make_statistic_raised_although_rows_were_complete"))
+            return
+    want = {c[1] for calls in hist.values() for c in calls if c[0] == "eval"}
+    if seen is not None and not want <= seen:
+        ctx.viol("snapshot_misses_a_row_complete_before_the_call", dict(det, snapshot=sorted(seen), complete_before=sorted(want), where="parent after all workers returned"),
+                 features=dict(feats, kind="snapshot_misses_a_row_complete_before_the_call"))
+        return
+    ctx.count("C16.parent_statistics_judged")
     ctx.count("C16.process_histories_judged")
     ctx.count("C16.events", len(events))
     check_history(ctx, hist, path, events, results, det, feats, order_key="t")
